@@ -10,7 +10,7 @@ CHECKS = {
          "runtime monitor: cross-layer set equality at every step + quiescence (bounded progress) check"),
  "C03": (SIM, "4, 5/C03", "order check of execution starts against dependency finishes over recorded histories of random DAG workloads with failures/cancels",
          "runtime monitor: happens-before check of starts vs. dependency finishes; propagation check at quiescence"),
- "C04": ("E3 allocator lab", "5/C04", "shadow ledger over every grant/release of the real ResourceAllocator on random descriptors and operation sequences with allocate-then-release probes on every reached free state (12 shards); plus, in the cluster simulation (4 shards), the ledger of the allocations of all executions that are open at the same time on one simulated worker (rule A6: what the real WorkerState handed to the launcher, incl. the hand-over of an allocation to a backlog task); plus the launcher lab (1-2 shards): real `sh` processes started by the real WorkerState + HqTaskLauncher dump their environment, and HQ_RESOURCE_VALUES_* / HQ_CPUS / CUDA_VISIBLE_DEVICES must name exactly the indices the worker holds for that task (rule A7)",
+ "C04": ("E3 allocator lab", "5/C04", "shadow ledger over every grant/release of the real ResourceAllocator on random descriptors and operation sequences with allocate-then-release probes on every reached free state (10 of the 16 shards); plus, in the cluster simulation (4 shards), the ledger of the allocations of all executions that are open at the same time on one simulated worker (rule A6: what the real WorkerState handed to the launcher, incl. the hand-over of an allocation to a backlog task); plus the launcher lab (2 shards): real `sh` processes started by the real WorkerState + HqTaskLauncher dump their environment, and HQ_RESOURCE_VALUES_* / HQ_CPUS / CUDA_VISIBLE_DEVICES must name exactly the indices the worker holds for that task (rule A7)",
          "runtime monitor: shadow ledger (conservation / exclusivity) over allocator operation sequences"),
  "C05": (SIM, "4, 5/C05", "oracle's own arithmetic over core snapshots at every step boundary (placed tasks vs. worker resources, lifetime at the placing round, multi-node sets) + independent re-statement of the cross-structure invariants",
          "runtime monitor: structural invariant + resource-sum oracle on core snapshots at quiescent points"),
@@ -88,11 +88,16 @@ manifest = {
    "add_only": True,
  },
  "engines": [
-   {"name": "E1 cluster simulation", "path": "/verif/harness/src/sim", "serves_properties": ["C01","C02","C03","C05","C06","C07","C08","C09","C13","C14"], "kind_free_text": "in-process simulation from the real tako core/worker state machine/HQ job layer with harness-owned nondeterminism + online/offline monitors (/verif/harness/src/oracle)"},
+   {"name": "E1 cluster simulation", "path": "/verif/harness/src/sim", "serves_properties": ["C01","C02","C03","C04","C05","C06","C07","C08","C09","C13","C14"], "kind_free_text": "in-process simulation from the real tako core/worker state machine/HQ job layer with harness-owned nondeterminism + online/offline monitors (/verif/harness/src/oracle)"},
+   {"name": "E2 scheduling-round lab", "path": "/verif/harness/src/sched.rs", "serves_properties": ["C15"], "kind_free_text": "one real scheduling decision (batches, MILP, mapping) per generated cluster/ready queue, judged from core snapshots; fixed corpus + random instances"},
    {"name": "E3 allocator lab", "path": "/verif/harness/src/alloc.rs", "serves_properties": ["C04","C16"], "kind_free_text": "real ResourceAllocator under random operation sequences with shadow ledger and brute-force reference"},
    {"name": "E4 journal lab", "path": "/verif/harness/src/journal.rs", "serves_properties": ["C10","C11","C12","C03","C06","C07"], "kind_free_text": "real JournalWriter/Reader, real StateRestorer and real journal thread (prune) on journals produced by E1; every record boundary enumerated"},
+   {"name": "E4b queue-id lab", "path": "/verif/harness/src/queueids.rs", "serves_properties": ["C11"], "kind_free_text": "queue create/remove/restart chains through the real autoalloc state, JournalWriter, StateRestorer and the re-adding of restored queues"},
    {"name": "E5 autoalloc lab", "path": "/verif/harness/src/autoalloc.rs", "serves_properties": ["C17","C18","C09"], "kind_free_text": "real autoalloc state machine + real scheduler query + simulated batch system (QueueHandler)"},
+   {"name": "E6 stream lab", "path": "/verif/harness/src/stream.rs", "serves_properties": ["C19"], "kind_free_text": "real worker-side streamers write random stream directories, real OutputLog reads them back (fd 1 redirected)"},
    {"name": "E7 handshake lab", "path": "/verif/harness/src/auth.rs", "serves_properties": ["C20"], "kind_free_text": "real do_authentication x2 with a man-in-the-middle"},
+   {"name": "E8 launcher lab", "path": "/verif/harness/src/launch.rs", "serves_properties": ["C04","C19"], "kind_free_text": "real processes run by the real WorkerState + HqTaskLauncher (real time, real pipes) behind the simulation's server side; environment vs. held allocation, streamed output read back"},
+   {"name": "valgrind memcheck (auxiliary)", "path": "/verif/check", "serves_properties": ["C09"], "kind_free_text": "a few simulation runs under valgrind --error-exitcode inside ./check C09 (HiGHS C++ is called on every scheduling decision)"},
  ],
  "checks": checks,
  "not_applicable": [{"property_id": p["id"], "reason": NA_REASON} for p in props if p["id"] not in CHECKS],
